@@ -450,10 +450,16 @@ def b_holder():
     return p
 
 
+def _small_spec(name):
+    if S.flag(name + ".sub1"):
+        return dict(class_path="vf.fixtures.Sub1", init_args=dict(z=S.int(name + ".z")))
+    return dict(class_path="vf.fixtures.Base", init_args=dict(w=S.int(name + ".w")))
+
+
 def s_holder():
-    ia = dict(inner=_spec("h.inner"), n=S.int("h.n"))
+    ia = dict(inner=_small_spec("h.inner"), n=S.int("h.n"))
     if S.flag("h.many?"):
-        ia["many"] = [_spec("h.many0")]
+        ia["many"] = [_small_spec("h.many0")]
     return dict(h=dict(class_path="vf.fixtures.Holder", init_args=ia))
 
 
@@ -470,11 +476,10 @@ def b_class_containers():
 
 
 def s_class_containers():
-    n = S.choice("lb.len", 3)
     return dict(
-        lb=[_spec(f"lb{i}") for i in range(n)],
-        db=({"k": _spec("db.k")} if S.flag("db.k?") else {}),
-        ub=(S.int("ub") if S.flag("ub.isint") else _spec("ub")),
+        lb=([_small_spec("lb0")] if S.flag("lb?") else []),
+        db=({"k": _small_spec("db.k")} if S.flag("db.k?") else {}),
+        ub=(S.int("ub") if S.flag("ub.isint") else _small_spec("ub")),
     )
 
 
@@ -544,7 +549,7 @@ SHAPES = [
 BY_NAME = {s.name: s for s in SHAPES}
 # heavy shapes are split into shards (a partition of the paths by their concrete choices) to use all cores
 SHARDS = {"unions": 4, "subclass_default": 3, "set_literal_enum": 3, "subclass_opt": 2, "restricted": 2, "scalars": 2, "lists": 2, "subclass": 2,
-          "holder": 4, "class_containers": 4}
+          "holder": 2, "class_containers": 3}
 
 
 def shard_jobs(shape):
